@@ -195,7 +195,7 @@ func Conclude(prop, mode string, res *RunResult, stepInfo []map[string]interface
 		"distinct_nontrivial":            st.Nontrivial,
 		"rule":                           rule + "; states = distinct (scenario, choice-sequence) executions; transitions = map-order choice points taken; non-trivial = scenario in which the property's premise held and user code ran or an error was judged",
 		"samples":                        samples,
-		"exhaustive":                     true,
+		"exhaustive":                     st.Classes["early_stop_shards"] == 0 && st.Classes["capped"] == 0,
 		"scenarios":                      st.Scenarios,
 		"scenarios_premise_held":         st.Premise,
 		"max_choice_points_per_exec":     st.MaxPoints,
